@@ -52,8 +52,9 @@ var abciInfo = abci.RequestInfo{}
 var stopProf = func() {}
 
 var kvKind = &appKind{
-	name:    "kvstore",
-	chainID: "c33-chain",
+	name:        "kvstore",
+	chainID:     "c33-chain",
+	reopenCheap: true,
 	plan: func() ([][]string, error) {
 		return [][]string{{"k1=v1"}, {"k2=v2", "k3=v3"}, {"k4=v4"}, {"k5=v5"}}, nil
 	},
@@ -82,8 +83,8 @@ type pair struct{ a, b *life }
 
 func runPair(from snap, dir string, sc scenario, epoch int, verb bool) pair {
 	return pair{
-		a: runLife(from, nodeOpts{dir: dir + "-a", kind: sc.kind, epoch: epoch, verbose: verb}),
-		b: runLife(from, nodeOpts{dir: dir + "-b", kind: sc.kind, epoch: epoch, flushEvery: true}),
+		a: runLife(from, nodeOpts{dir: dir + "-a", kind: sc.kind, epoch: epoch, verbose: verb, keepKV: *onlyK >= 0}),
+		b: runLife(from, nodeOpts{dir: dir + "-b", kind: sc.kind, epoch: epoch, flushEvery: true, keepKV: *onlyK >= 0}),
 	}
 }
 
@@ -291,6 +292,17 @@ func runScenario(sc scenario) (layout map[string]any, exhaustive bool) {
 		}
 	}
 	if ok, why := ref.consistent(); !ok {
+		fmt.Println(*ref.a.obs)
+		fmt.Println(*ref.b.obs)
+		if ref.a.appKV != nil && ref.b.appKV != nil {
+			n := 0
+			for k, v := range ref.a.appKV {
+				if w, ok := ref.b.appKV[k]; (!ok || w != v) && n < 12 {
+					n++
+					fmt.Printf("  app-db diff key=%q\n    a=%q\n    b=%q (present=%v)\n", k, trunc(v), trunc(w), ok)
+				}
+			}
+		}
 		r.HarnessError("reference runs A/B differ (nondeterminism): %s", why)
 	}
 	if ok, why := (pair{ref.a, refC}).consistent(); !ok {
@@ -317,10 +329,22 @@ func runScenario(sc scenario) (layout map[string]any, exhaustive bool) {
 	}
 	var ran atomic.Int64
 	lives := make([]*life, len(todo))
-	r.ParFor(len(todo), func(i int) {
+	// execution order (matters only if the budget runs out): crash points inside the block commit window
+	// (SaveBlock .. WAL marker .. ApplyBlock .. app Commit .. SaveState) first, then the rest
+	var perm, rest []int
+	for i, c := range todo {
+		if c.k > 0 && c.k < N && (refA.rec.units[c.k-1].Comp != "wal" && refA.rec.units[c.k-1].Comp != "pv" || refA.rec.units[c.k].Comp != "wal" && refA.rec.units[c.k].Comp != "pv") {
+			perm = append(perm, i)
+		} else {
+			rest = append(rest, i)
+		}
+	}
+	perm = append(perm, rest...)
+	r.ParFor(len(todo), func(j int) {
+		i := perm[j]
 		c := todo[i]
 		dir := filepath.Join(workRoot, sc.name, fmt.Sprintf("k%04d-%s-%d", c.k, c.variant, c.walLen))
-		lives[i] = runLife(c.from, nodeOpts{dir: dir, kind: sc.kind, epoch: 1, verbose: *onlyK >= 0 && *onlyK2 < 0})
+		lives[i] = runLife(c.from, nodeOpts{dir: dir, kind: sc.kind, epoch: 1, verbose: *onlyK >= 0 && *onlyK2 < 0, keepKV: *onlyK >= 0})
 		os.RemoveAll(dir)
 		ran.Add(1)
 	})
@@ -336,7 +360,7 @@ func runScenario(sc scenario) (layout map[string]any, exhaustive bool) {
 		"scenario": sc.name, "units": N, "units_by_component": comp, "crash_points": total,
 		"distinct_persistent_states": len(todo), "recoveries_run": ran.Load(),
 		"wal_bytes": len(refA.final.wal),
-		"reference": map[string]any{"blocks": refA.obs.BlockIDs, "app_hashes": refA.obs.AppHashes, "txs": refA.obs.Txs, "final_app_hash": refA.obs.StateAppHash, "signatures": len(refA.rec.sigs)},
+		"reference": map[string]any{"blocks": refA.obs.BlockIDs, "app_hashes": refA.obs.AppHashes, "txs": printable(refA.obs.Txs), "final_app_hash": refA.obs.StateAppHash, "signatures": len(refA.rec.sigs)},
 	}
 	if len(refA.errLogs) > 0 {
 		layout["reference_error_logs"] = dedupStrings(refA.errLogs)
@@ -492,6 +516,11 @@ func checkCrash(sc scenario, ref *life, hist []crashCase, lf *life) (ok bool) {
 			bad("wal-messages-of-current-height-not-replayed: " + catchup)
 		}
 	}
+	if lf.outcome == "timeout" {
+		r.MarkCapped()
+		r.Outcome(depth + " harness timeout (not judged)")
+		return false
+	}
 	if lf.outcome != "done" {
 		cl := lf.outcome
 		if i := strings.Index(cl, "Block:"); i > 0 {
@@ -509,11 +538,11 @@ func checkCrash(sc scenario, ref *life, hist []crashCase, lf *life) (ok bool) {
 		if lf.outcome == "stuck" && catchup != "" && lost > 0 && signErr {
 			// no WAL replay => the node re-enters round 0 from scratch, the privval (correctly) refuses to sign
 			// again below its last signed step => a single validator can never move: the chain is halted for good
+			where := ""
 			if atInitial {
-				bad("node-halted-after-restart: initial height, no WAL replay, privval refuses to re-sign")
-			} else {
-				bad("node-halted-after-restart: no WAL replay (height marker missing), privval refuses to re-sign")
+				where = " at the initial height"
 			}
+			bad(fmt.Sprintf("node-halted-after-restart: WAL replay failed (%s)%s; privval refuses to re-sign", catchup, where))
 		} else {
 			bad("restart-failed: " + cl)
 		}
@@ -560,6 +589,21 @@ func checkCrash(sc scenario, ref *life, hist []crashCase, lf *life) (ok bool) {
 			bad("blocks-differ-from-uncrashed-run")
 		}
 		if o.AppDump != ro.AppDump {
+			if lf.appKV != nil && ref.appKV != nil {
+				n := 0
+				for k, v := range ref.appKV {
+					if w, ok := lf.appKV[k]; (!ok || w != v) && n < 12 {
+						n++
+						fmt.Printf("  app-db diff key=%q\n    ref=%q\n    got=%q (present=%v)\n", k, trunc(v), trunc(w), ok)
+					}
+				}
+				for k := range lf.appKV {
+					if _, ok := ref.appKV[k]; !ok && n < 16 {
+						n++
+						fmt.Printf("  app-db extra key=%q\n", k)
+					}
+				}
+			}
 			bad("app-db-differs-from-uncrashed-run")
 		}
 		if o.StDump != ro.StDump {
@@ -611,4 +655,26 @@ func checkCrash(sc scenario, ref *life, hist []crashCase, lf *life) (ok bool) {
 		r.Outcome(depth + " recovered to the uncrashed chain")
 	}
 	return ok
+}
+
+func trunc(s string) string {
+	if len(s) > 300 {
+		return s[:300] + "…"
+	}
+	return s
+}
+
+// printable replaces binary tx sets (gno.land) by their hashes.
+func printable(txs []string) []string {
+	out := make([]string, len(txs))
+	for i, t := range txs {
+		out[i] = t
+		for _, c := range []byte(t) {
+			if c < 32 || c > 126 {
+				out[i] = fmt.Sprintf("%d bytes sha256:%s", len(t), sha([]byte(t)))
+				break
+			}
+		}
+	}
+	return out
 }
